@@ -372,6 +372,18 @@ CHECKS += [
          technique="lifted execution with solver-chosen structure, trainable masks and index orders (z3-decided forks) against a flat parameter-list model"),
 ]
 
+CHECKS += [
+    dict(property_id="C46", category="other", engine="E5 symbit + z3",
+         text="(a) circuits of 4 gate slots over 17 gate kinds (1-3 qubit gates, qp.ctrl with 1-2 controls, adjoints, rotations that merge / inverses that cancel) with the gate "
+              "kinds as solver variables, x 4 measurement lists (idle measured wire included), through the REAL resources_from_tape / tape.specs and qp.specs(qnode, level=0..2) "
+              "with a [cancel_inverses, merge_rotations] program, against a direct count (documented gate names, wires, longest-path depth) of the manually transformed circuit; "
+              "(b) resource.Expression arithmetic with SYMBOLIC integer coefficients substituted with SYMBOLIC integers: z3 proves the ring-homomorphism, commutativity and "
+              "distributivity laws and field-wise Resources.subs.",
+         note="Category 'other': (a) is bounded exhaustive exploration through solver-decided forks on concrete circuits; (b) is proof-level (z3 validity over integers, coefficients "
+              "in [-6,6], arbitrary substituted values). Outside: qjit/catalyst specs, PBC resources, level='device', pretty printing.",
+         technique="lifted execution with solver-chosen gate kinds (z3-decided forks) against a direct count; z3 integer-arithmetic validity proofs for the expression algebra"),
+]
+
 _NOT_BUILT = "claimed in DESIGN.md §4 but its solver-based check is not built yet in this tree"
 NOT_APPLICABLE_REASONS = {
     "C04": "equality/hash: Python hash() of concrete payloads and tolerance-based allclose relations; no exact relation a solver can decide",
